@@ -4,6 +4,7 @@ package main
 
 import (
 	"fmt"
+	"go/ast"
 	"go/types"
 	"os"
 	"path/filepath"
@@ -197,11 +198,32 @@ func (x *Exec) verify(fn *ssa.Function, c *Contract) {
 		v := st.freshVal("all."+fa.Name, t)
 		x.forallVs[fa.Name] = v
 		env.vars[fa.Name] = v
+		for _, t := range v.flatten() {
+			x.inputTerms = append(x.inputTerms, t.S)
+		}
+	}
+	// quantified hypotheses that the contract instantiates explicitly ('after ... instantiate')
+	// are used only through those instances: queries stay quantifier-free and failures have models
+	instOnly := map[string]bool{}
+	for _, a := range c.After {
+		if a.Inst {
+			if ce, ok := a.Cl.Expr.(*ast.CallExpr); ok {
+				if id, ok := ce.Fun.(*ast.Ident); ok {
+					instOnly[id.Name] = true
+				}
+			}
+		}
 	}
 	for _, r := range c.Requires {
+		if r.Label != "" && instOnly[r.Label] {
+			continue
+		}
 		st.assume(env.evalBool(r))
 	}
 	for _, r := range c.Assumes {
+		if r.Label != "" && instOnly[r.Label] {
+			continue
+		}
 		st.assume(env.evalBool(r))
 	}
 	// struct invariants of pointer parameters are part of the precondition
